@@ -78,7 +78,8 @@ class Profile(object):
         self.very_wide_additions = False    # 63/64/65 additions (normally-small length boundary)
         self.via_ref_floor = True
         self.ref_constraint_rate = 12
-        self.via_ref_floor_rate = 30
+        self.stack_rate = 10            # percent of references to an already constrained type that narrow it further
+        self.via_ref_floor_rate = 45
         self.ext_rate = 35
         self.choice_tags_ascending_rate = 30
         self.bit_fixed_max = None
@@ -371,6 +372,35 @@ class _G(object):
                 mod.imports[amod].append(name)
         t = Ty('REF', ref=name)
         P = self.p
+        if P.ref_constraints and P.constraints and P.stack_rate and self.chance(P.stack_rate):
+            # serial application: a narrower range / size on top of the referenced type's own (non-extensible,
+            # bounded) one, optionally extensible
+            target = self.lookup_avail(amod, name)
+            c = None
+            if target is not None and target.kind == 'INTEGER':
+                c = target.rng
+            elif target is not None and target.kind in ('OCTET STRING', 'SEQUENCE OF', 'SET OF', 'IA5String',
+                                                        'VisibleString', 'UTF8String') and target.alpha is None:
+                c = target.size
+            if (c is not None and not c.ext and c.lo is not None and c.hi is not None and c.hi - c.lo >= 1
+                    and not c.lo_txt and not c.hi_txt):
+                w = c.hi - c.lo
+                a_ = self.pick([0, 0, 1, 2, w // 2])
+                b_ = self.pick([0, 1, 1, 2, w // 3])
+                lo, hi = c.lo + min(a_, w), c.hi - min(b_, w)
+                if self.chance(40):
+                    # a small window inside a (possibly huge) parent range
+                    hi = min(c.hi, lo + self.pick([0, 1, 7, 254, 255, 256, 65535, 65536]))
+                if lo > hi:
+                    lo, hi = c.lo, c.lo
+                n = Rng(lo, hi)
+                if P.ext_constraints and self.chance(40) and not P.require_bounded:
+                    n.ext = True
+                if target.kind == 'INTEGER':
+                    t.rng = n
+                else:
+                    t.size = n
+                return t
         if P.ref_constraints and P.constraints and self.chance(P.ref_constraint_rate):
             # narrow an unconstrained base through the reference
             target = self.lookup_avail(amod, name)
@@ -921,15 +951,33 @@ class _G(object):
         if not aliases:
             return
         names = self.member_names(len(aliases))
+        # per member, what differs between its two occurrences: exactly one thing (a constraint at the reference, a
+        # DEFAULT, OPTIONAL) with the other occurrence plain, or anything
+        roles = [self.pick(['constraint', 'constraint', 'default', 'optional', 'any', 'any']) for _ in aliases]
         for cname in ('Dv', 'Dw'):
             if cname in tnames:
                 continue
             members = []
-            for nm, al in zip(names, aliases):
+            for nm, al, role in zip(names, aliases, roles):
                 m = Member(nm, Ty('REF', ref=al))
                 target = self.lookup_avail(mod.name, al)
+                if role != 'any':
+                    if cname == 'Dw':
+                        if role == 'constraint' and P.ref_constraints and P.constraints and target is not None:
+                            if target.kind == 'INTEGER' and target.rng is None:
+                                m.ty.rng = self.int_range(mod)
+                            elif (target.size is None and target.alpha is None and not target.named_bits and
+                                  target.kind in ('OCTET STRING', 'BIT STRING', 'IA5String', 'UTF8String',
+                                                  'NumericString', 'PrintableString')):
+                                m.ty.size = self.size_range(mod, maxb=12)
+                        elif role == 'default' and P.defaults:
+                            self.try_default(m, mod)
+                        elif role == 'optional' and P.optionals:
+                            m.optional = True
+                    members.append(m)
+                    continue
                 if (cname == 'Dw' and P.ref_constraints and P.constraints and target is not None
-                        and self.chance(45)):
+                        and self.chance(60)):
                     # a constraint written at the reference in one container only
                     if target.kind == 'INTEGER' and target.rng is None:
                         m.ty.rng = self.int_range(mod)
@@ -938,16 +986,24 @@ class _G(object):
                                           'NumericString', 'PrintableString')):
                         m.ty.size = self.size_range(mod, maxb=12)
                 r = self.d(st.integers(0, 99))
-                if r < 45 and P.defaults:
+                constrained_here = m.ty.rng is not None or m.ty.size is not None
+                if r < (25 if constrained_here else 45) and P.defaults:
                     self.try_default(m, mod)
-                elif r < 60 and P.optionals:
+                elif r < (40 if constrained_here else 60) and P.optionals:
                     m.optional = True
                 members.append(m)
             t = Ty(self.pick(['SEQUENCE', 'SEQUENCE', 'SET']) if 'SET' in P.constructed else 'SEQUENCE',
                    root=members)
             mod.types.append((cname, t))
             spec = Spec(self.modules)
-            self.fix_tags(spec, t, mod)
+            if self.chance(60):
+                # no hand-written tags (the members' types differ): the library shares compiled member types
+                # between untagged like-named members, tagged ones are copies
+                spec.link()
+                if mod.tagdefault != 'AUTOMATIC' and not self.legal(spec, t, mod):
+                    self.tag_all(spec, t, mod)
+            else:
+                self.fix_tags(spec, t, mod)
             self.avail.append((mod.name, cname, t.kind))
 
     def ext_implied_fixup(self, t):
